@@ -36,7 +36,7 @@ ELEM_PARAM = {  # generic base -> ("elem",) or ("kv",)
 }
 KIND_CLASS = {"list": "builtins.list", "set": "builtins.set",
               "frozenset": "builtins.frozenset", "dict": "builtins.dict",
-              "tuple": "builtins.tuple", "callable": "builtins.function",
+              "tuple": "builtins.tuple", "callable": "typing.Callable",
               "type": "builtins.type"}
 
 
